@@ -14,6 +14,8 @@ import TboxModel.C19.SerProofs
 import TboxModel.C19.B64Proofs
 import TboxModel.C19.CrcProofs
 import TboxModel.C19.UrlHexProofs
+import TboxModel.C19.Md5Proofs
+import TboxModel.C19.AesProofs
 namespace Tbox.C19
 set_option maxRecDepth 100000
 
@@ -249,10 +251,19 @@ example : (256 : Nat) < 256 ^ 2 := by decide
 example : Ser.D.fetchInt ⟨[9] ++ Ser.intBytes .big 2 256 ++ [7], .big, 1⟩ 2 = .ok (some 256, ⟨[9, 1, 0, 7], .big, 3⟩) := by
   decide +kernel
 
--- OPEN  C19_ser_roundtrip : ∀ e fields (all ints in range), ∃ s, Ser.serFields (Ser.S.newVec [] e) fields = .ok s ∧
---         Ser.desFields (Ser.D.new s.mem e) fields = .ok (some fields)
---       (the per-field inverse is C19_ser_int_roundtrip; raw/POD fields are list identities; the sequence level is
---        executed by the `ser.rt` operation)
+/-- `C19_ser_roundtrip`: for EVERY field sequence (integers of any width that fit it, raw blocks, POD blocks, endianness
+switches, in any order) and either initial endianness: serializing into an empty vector succeeds, produces exactly the
+encoding, leaves the position at its end — and deserializing that vector with the same shape gives the same fields. -/
+theorem C19_ser_roundtrip (e : Ser.Endian) (fields : List Ser.Field) (hv : ∀ f ∈ fields, f.valid = true) :
+    ∃ s, Ser.serFields (Ser.S.newVec [] e) fields = .ok s ∧ s.mem = Ser.encodeFields e fields ∧ s.pos = s.mem.length
+      ∧ Ser.desFields (Ser.D.new s.mem e) fields = .ok (some fields) := by
+  obtain ⟨s, h1, h2, _, h4⟩ := Ser.serFields_vec fields (Ser.S.newVec [] e) rfl rfl
+  have hm : s.mem = Ser.encodeFields e fields := by simpa [Ser.S.newVec] using h2
+  refine ⟨s, h1, hm, h4.symm, ?_⟩
+  have := Ser.desFields_enc fields e [] [] hv
+  simpa [Ser.D.new, hm] using this
+
+example : ∀ f ∈ [Ser.Field.int 2 513, .endian .little, .pod [1, 2, 3], .raw [9]], f.valid = true := by decide
 
 /-! ## 5. Base64 -/
 open B64 in
@@ -406,12 +417,81 @@ theorem C19_hex_roundtrip_buf (upper : Bool) (x : List UInt8) (cap : Nat) (hc : 
 
 example : Hex.toBuf (Hex.rawToHex true [] [0xAB, 0x01]) 2 = .ok (2, [0xAB, 0x01]) := by decide +kernel
 
--- OPEN  C19_hex_roundtrip (vector readers): ∀ x upper delim (no hex digit in delim), Hex.toVec (Hex.rawToHex upper delim x) delim
---         = ⟨none, x⟩. The readers are transcribed with std::string index searches (find_first_of / find_first_not_of);
---         the position arithmetic over those was not closed. Executed by `hex.rt` for every length 0..70 and both cases.
--- OPEN  C19_md5_split,
---         C19_aes_shiftrows_inverse / mixcolumns_inverse / roundtrip: stated in DESIGN §6; not closed in the time
---         available. For these the run compares the implementation with the independent definitions of Spec.lean
---         (bitwise CRC, closed-form checksums, RFC-1321 schedule, GF(2^8) S-box) and with python references.
+/-- `C19_hex_roundtrip`: the vector readers. For EVERY byte string, both letter cases and every delimiter that is empty or
+contains no hex digit of that case, `HexStrToRawData(RawDataToHexStr(x, delim), out, delim)` returns exactly x and raises
+nothing (string lengths below 2^64 − 1, as for any std::string). After fix C19-04 this includes the empty byte string. -/
+theorem C19_hex_roundtrip (upper : Bool) (delim x : List UInt8) (hd : delim = [] ∨ Hex.delimOk upper delim)
+    (hs : (Hex.rawToHex upper delim x).length < 2 ^ 64 - 1) :
+    Hex.toVec (Hex.rawToHex upper delim x) delim = ⟨none, x⟩ := by
+  unfold Hex.toVec
+  by_cases he : delim = []
+  · subst he
+    simp only [List.isEmpty_nil, if_true]
+    rw [Hex.rawToHex_nodelim] at hs ⊢
+    rw [Hex.flatMap_digits_length] at hs
+    exact Hex.toVecNoDelim_digits upper x hs
+  · have : delim.isEmpty = false := by cases delim <;> simp_all
+    simp only [this, Bool.false_eq_true, if_false]
+    exact Hex.toVecDelim_digits upper delim x (hd.resolve_left he) he hs
+
+example : Hex.delimOk false [58, 32] := by unfold Hex.delimOk; decide
+example : Hex.toVec (Hex.rawToHex false [58, 32] [0xAB, 0x01]) [58, 32] = ⟨none, [0xAB, 0x01]⟩ := by decide +kernel
+
+/-! ## 8. MD5: split independence -/
+-- OPEN (false as stated, see the counterexample)  C19_md5_split : ∀ P ps qs, ps.flatten = qs.flatten → digestSplit P ps = digestSplit P qs
+/-- `C19_md5_split_partial`: for EVERY message and EVERY two ways of feeding it to `update` (any number of pieces,
+empty pieces included) the digests are equal — provided every single update is shorter than 2^29 bytes (512 MiB).
+The hypothesis is needed: see `C19_md5_count_counterexample`. -/
+theorem C19_md5_split_partial (P : Md5.Params) (ps qs : List (List UInt8)) (h : ps.flatten = qs.flatten)
+    (hp : ∀ p ∈ ps, p.length < 2 ^ 29) (hq : ∀ q ∈ qs, q.length < 2 ^ 29) :
+    Md5.digestSplit P ps = Md5.digestSplit P qs := by
+  unfold Md5.digestSplit
+  have r1 := Md5.repr_foldl P ps _ [] (Md5.repr_init P) hp
+  have r2 := Md5.repr_foldl P qs _ [] (Md5.repr_init P) hq
+  simp only [List.nil_append] at r1 r2
+  rw [h] at r1
+  exact Md5.finish_eq P _ _ _ r1 r2
+
+/-- in particular any split equals the one-shot digest of the whole message -/
+theorem C19_md5_split_oneshot (P : Md5.Params) (ps : List (List UInt8)) (hp : ∀ p ∈ ps, p.length < 2 ^ 29)
+    (ht : ps.flatten.length < 2 ^ 29) : Md5.digestSplit P ps = Md5.digest P ps.flatten := by
+  unfold Md5.digest
+  exact C19_md5_split_partial P ps [ps.flatten] (by simp) hp (by simpa using ht)
+
+/-- the bit counter of `update` with the 64-bit comparison (`count_[0] < (plain_text_len << 3)`, the code before fix
+C19-05) after ONE update of 2^29 bytes differs from the counter after the same bytes fed as two updates of 2^28 bytes: the
+carry into `count_[1]` is counted twice for a single update of ≥ 512 MiB; with the 32-bit comparison both agree. The full
+statement without the length hypothesis is therefore false of that code (replay: props/C19/md5_big_update.ops — the real
+implementation returns d3fbf790… instead of aa559b4e… for 2^29 zero bytes in one update). -/
+theorem C19_md5_count_counterexample :
+    Md5.countUpdateW true 0 0 (2 ^ 29) = (0, 2) ∧
+    (let (a, b) := Md5.countUpdateW true 0 0 (2 ^ 28); Md5.countUpdateW true a b (2 ^ 28)) = (0, 1) ∧
+    Md5.countUpdateW false 0 0 (2 ^ 29) = (0, 1) := by
+  decide +kernel
+
+example : ([[1, 2], [], [3]] : List (List UInt8)).flatten = [[1], [2, 3]].flatten := by decide
+
+/-! ## 9. AES -/
+/-- ShiftRows / InvShiftRows are mutually inverse on every 4×4 state -/
+theorem C19_aes_shiftrows_inverse (m : Aes.Mat) (h : m.length = 16) :
+    Aes.invShiftRows (Aes.shiftRows m) = m ∧ Aes.shiftRows (Aes.invShiftRows m) = m :=
+  ⟨Aes.invShiftRows_shiftRows m h, Aes.shiftRows_invShiftRows m h⟩
+
+/-- InvMixColumns undoes MixColumns on every 4×4 state (FFmul is GF(2)-linear; the four coefficient identities
+0e·02⊕0b·01⊕0d·01⊕09·03 = 01, … = 0 hold for all 256 bytes) -/
+theorem C19_aes_mixcolumns_inverse (m : Aes.Mat) (h : m.length = 16) : Aes.invMixColumns (Aes.mixColumns m) = m :=
+  Aes.invMixColumns_mixColumns m h
+
+/-- AddRoundKey is an involution -/
+theorem C19_aes_addroundkey_involution (m k : Aes.Mat) (h : m.length = k.length) :
+    Aes.addRoundKey (Aes.addRoundKey m k) k = m := Aes.addRoundKey_invol m k h
+
+/-- `C19_aes_roundtrip`: for EVERY key (any 16 bytes; the model reads missing key bytes as 0) and EVERY 16-byte block,
+with the S-boxes and round constants as they are in the source: invcipher (cipher block) = block. -/
+theorem C19_aes_roundtrip (key block : List UInt8) (hb : block.length = 16) :
+    Aes.invCipher Aes.gen key (Aes.cipher Aes.gen key block) = block :=
+  Aes.invCipher_cipher (fun x => (C19_aes_sbox_inverse x).1) key block hb
+
+example : ((List.range 16).map UInt8.ofNat).length = 16 := by decide
 
 end Tbox.C19
